@@ -119,6 +119,8 @@ def failure_programs():
     # an exception whose instances are falsy; a CancelledError that the body raises on its own (BaseException)
     out += variants(rh, [[R({'B': ['raise:E0']})], [R({'C': ['raise:CE']})], [R({'B': ['raise:E0'], 'C': ['raise:CE']})]],
                     ['falsyexcB', 'cancelexcC', 'falsyB_cancelC'])
+    # a node's own timeout: TimeoutError is an Exception (and, since 3.11, asyncio.TimeoutError)
+    out += variants(rh, [[R({'B': ['raise:ET']})], [R({'D': ['raise:ET']})]], ['timeoutB', 'timeoutD'])
     return out
 
 
@@ -303,6 +305,14 @@ def oneof_programs():
              N('C2', I('p1', 'A')), N('O', OO('p1', ['C1', 'C2']))]
     out += variants(P('cand_input_of_other_candidate', nodes, 'A', 'O', tags=['oneof']),
                     [[R({'P': ['raise:E1']})], [R({})]], ['pfails', 'ok'])
+    # a candidate that reaches a switch whose selected case consumes a second switch whose selected case fails
+    nodes = [N('A'), N('K2', I('p1', 'A')), N('BAD', I('p1', 'A')), N('GOOD', I('p1', 'A')),
+             N('DEEP', SW('p1', 'K2', [('bad', 'BAD'), ('good', 'GOOD')], name='inner')), N('FLAT', I('p1', 'A')),
+             N('K1', I('p1', 'A')), N('MID', SW('p1', 'K1', [('deep', 'DEEP'), ('flat', 'FLAT')], name='outer')),
+             N('C1', I('p1', 'MID')), N('C2', I('p1', 'A')), N('O', OO('p1', ['C1', 'C2']))]
+    out += variants(P('oneof_nested_switch_fail', nodes, 'A', 'O', tags=['oneof', 'switch']),
+                    [[R({'K1': ['label:deep'], 'K2': ['label:bad'], 'BAD': ['raise:E1']})],
+                     [R({'K1': ['label:deep'], 'K2': ['label:good'], 'BAD': ['raise:E1']})]], ['bad', 'good'])
     # a one-of inside the selected case of a switch inside a candidate: running out of inner candidates fails the
     # candidate, not the run
     nodes = [N('A'), N('K', I('p1', 'A')), N('I1', I('p1', 'A')), N('I2', I('p1', 'A')), N('IN', OO('p1', ['I1', 'I2'])),
@@ -442,6 +452,23 @@ def rec_programs():
     nodes = [N('A'), N('M', I('p1', 'A')), N('D', I('p1', 'M')), N('O', RC('p1', 'A', 'D', 3))]
     p = P('rec_from_input', nodes, 'A', 'O', tags=['rec'])
     out += variants(p, [[R(recreq={'D': 1})], [R(recreq={'D': 3})], [R(recreq={'D': 4})]], ['it1', 'it3', 'it4_exhaust'])
+    # next_iteration(token) then next_iteration(None) when the start node is the pipeline's input node
+    p = P('rec_from_input_none', nodes, 'A', 'O', tags=['rec'])
+    out += variants(p, [[R(recreq={'D': 2}, recnone={'D': [2]})]], ['token_then_none'])
+    # nested sub-graphs inside a one-of candidate: the inner one (no default) runs out of iterations only during the
+    # second iteration of the outer one -> the candidate fails, the fallback is used
+    nodes_n = [N('A'), N('OA', I('p1', 'A')), N('IB', I('p1', 'OA')), N('DIN', I('p1', 'IB')), N('X', RC('p1', 'IB', 'DIN', 2)),
+               N('DOUT', I('p1', 'X')), N('PX', RC('p1', 'OA', 'DOUT', 3)), N('FB', I('p1', 'A')), N('O', OO('p1', ['PX', 'FB']))]
+    out += variants(P('rec_nested_in_oneof_exhaust', nodes_n, 'A', 'O', tags=['rec', 'oneof']),
+                    [[R(recreq={'DOUT': 1, 'DIN': 9}, plan_it={'DIN': [['none'], ['ok']]})],
+                     [R(recreq={'DOUT': 1, 'DIN': 9})]], ['second_outer', 'first_pass'])
+    # a node of the loop (B) is also read by the sub-pipeline of a switch outside the loop (no reference value: D8
+    # family), two parallel branches in the loop
+    nodes_s = [N('A'), N('S', I('p1', 'A')), N('Q', I('p1', 'S')), N('QA', I('p1', 'Q')), N('X1', I('p1', 'S')), N('X2', I('p1', 'X1')),
+               N('B', I('p1', 'X2')), N('D', I('p1', 'QA'), I('p2', 'B')), N('DEC', I('p1', 'B')), N('CY', I('p1', 'B')),
+               N('O', RC('p1', 'S', 'D', 3), SW('p2', 'DEC', [('y', 'CY')], name='swo'))]
+    out += variants(P('rec_shared_with_switch_outside', nodes_s, 'A', 'O', tags=['rec', 'switch', 'D8']),
+                    [[R({'DEC': ['label:y']}, recreq={'D': 1})]], ['it1'])
     # retry + default inside a recurrent sub-graph (test_subgraph_default_retry)
     nodes = [N('A', attempts=2, use_default=True), N('M', I('p1', 'A')), N('D', I('p1', 'M'), use_default=True),
              N('C'), N('O', I('p1', 'C'), RC('p2', 'A', 'D', 2))]
